@@ -29,7 +29,9 @@ func RetrieveSupportedCipherSuites(ctx context.Context, s *V2SessionlessTranspor
 			return nil, err
 		}
 		cipherSuiteRecordData.Write(getChannelCipherSuitesCmd.Rsp.CipherSuiteRecordsChunk)
-		if getChannelCipherSuitesCmd.Req.ListIndex == 64 ||
+		// the list index is a 6-bit field, so 63 is the last chunk there can
+		// be; index 64 would wrap around to 0 on the wire
+		if getChannelCipherSuitesCmd.Req.ListIndex == 63 ||
 			len(getChannelCipherSuitesCmd.Rsp.CipherSuiteRecordsChunk) < 16 {
 			break
 		}
